@@ -13,8 +13,7 @@ use arkharness::util::*;
 use arkharness::zoo::*;
 
 // ---------------------------------------------------------------- fields
-fn field_suite<F: Field>(out: &mut Out, rng: &mut Rng, fd: &str, vals: &[F], nfl: usize, exh: usize, sweeps: usize)
-where F::BasePrimeField: PrimeField {
+fn field_suite<F: Field>(out: &mut Out, rng: &mut Rng, fd: &str, vals: &[F], nfl: usize, exh: usize, sweeps: usize) {
     for x in vals { for (c, v) in MODES { op_frt(out, fd, x, c, v); } }
     macro_rules! with_flags { ($fl:ty) => {
         for x in vals.iter().take(nfl) { for fl in <$fl>::samples() { op_fflrt::<F, $fl>(out, fd, x, fl); } }
@@ -53,21 +52,20 @@ fn prime_field<F: PrimeField>(out: &mut Out, rng: &mut Rng, th: bool) {
     let exh = if th { 2 } else { 1 };
     field_suite::<F>(out, rng, &fd, &vals, if th { 40 } else { 12 }, exh, if th { 6 } else { 2 });
 }
-fn ext_field<F: Field>(out: &mut Out, rng: &mut Rng, tower: &str, th: bool) where F::BasePrimeField: PrimeField {
+fn ext_field<F: Field>(out: &mut Out, rng: &mut Rng, tower: &str, th: bool) {
     let fd = fdesc::<F>(tower);
     let vals = edge_ext::<F>(rng, if th { 80 } else { 3 * F::extension_degree() as usize + 12 });
     field_suite::<F>(out, rng, &fd, &vals, if th { 30 } else { 8 }, 0, if th { 4 } else { 1 });
 }
 
 // ---------------------------------------------------------------- curves
-fn sw_points_ops<P: sw::SWCurveConfig>(out: &mut Out, fd: &str, affs: &[sw::Affine<P>], lambdas: &[P::BaseField], extra_zero: bool) {
-    let cd = sw_desc::<P>(fd);
+fn sw_points_ops<P: sw::SWCurveConfig>(out: &mut Out, cd: &str, affs: &[sw::Affine<P>], lambdas: &[P::BaseField], extra_zero: bool) {
     for a in affs {
-        for (c, v) in MODES { op_prt(out, &cd, a, c, v); }
+        for (c, v) in MODES { op_prt(out, cd, a, c, v); }
         let pr: sw::Projective<P> = (*a).into();
         for l in lambdas {
             let q = sw_rescale(&pr, *l);
-            for (c, v) in MODES { op_prt(out, &cd, &q, c, v); }
+            for (c, v) in MODES { op_prt(out, cd, &q, c, v); }
         }
     }
     if extra_zero {
@@ -76,21 +74,20 @@ fn sw_points_ops<P: sw::SWCurveConfig>(out: &mut Out, fd: &str, affs: &[sw::Affi
         let five = one + one + one + one + one;
         let z1 = sw::Projective::<P>::new_unchecked(five, five + one, P::BaseField::zero());
         let z2 = sw::Projective::<P>::new_unchecked(P::BaseField::zero(), P::BaseField::zero(), P::BaseField::zero());
-        for (c, v) in MODES { op_prt(out, &cd, &z1, c, v); op_prt(out, &cd, &z2, c, v); }
+        for (c, v) in MODES { op_prt(out, cd, &z1, c, v); op_prt(out, cd, &z2, c, v); }
         let mut i1 = sw::Affine::<P>::identity(); i1.x = five; i1.y = one;
-        for (c, v) in MODES { op_prt(out, &cd, &i1, c, v); }
+        for (c, v) in MODES { op_prt(out, cd, &i1, c, v); }
     }
 }
-fn sw_offcurve_ops<P: sw::SWCurveConfig>(out: &mut Out, fd: &str, affs: &[sw::Affine<P>]) {
+fn sw_offcurve_ops<P: sw::SWCurveConfig>(out: &mut Out, cd: &str, affs: &[sw::Affine<P>]) {
     // arbitrary coordinate pairs: the uncompressed unchecked mode must give them back as they are
-    let cd = sw_desc::<P>(fd);
     for a in affs {
         if a.infinity { continue; }
         let b = sw::Affine::<P>::new_unchecked(a.x, a.y + P::BaseField::one());
-        op_prt(out, &cd, &b, Compress::No, Validate::No);
-        op_prt(out, &cd, &b, Compress::No, Validate::Yes);
+        op_prt(out, cd, &b, Compress::No, Validate::No);
+        op_prt(out, cd, &b, Compress::No, Validate::Yes);
         let pb = sw::Projective::<P>::new_unchecked(b.x, b.y, P::BaseField::one());
-        op_prt(out, &cd, &pb, Compress::No, Validate::No);
+        op_prt(out, cd, &pb, Compress::No, Validate::No);
     }
 }
 fn te_points_ops<P: te::TECurveConfig>(out: &mut Out, fd: &str, affs: &[te::Affine<P>], lambdas: &[P::BaseField]) {
@@ -113,47 +110,49 @@ fn te_offcurve_ops<P: te::TECurveConfig>(out: &mut Out, fd: &str, affs: &[te::Af
     }
 }
 
-fn toy_sw<P: sw::SWCurveConfig>(out: &mut Out, name: &str, order: u64, th: bool) where P::BaseField: PrimeField {
+fn toy_sw<P: sw::SWCurveConfig>(out: &mut Out, name: &str, tw: &str, order: u64, th: bool) {
     check_sw::<P>(name, order);
-    let fd = fdesc::<P::BaseField>("_");
+    let cd = sw_desc::<P>(&fdesc::<P::BaseField>(tw));
+    let cd = cd.as_str();
     let mut pts = vec![sw::Affine::<P>::identity()];
     pts.extend(sw_all_points::<P>());
-    let two = small::<P::BaseField>(2);
-    let lam: Vec<P::BaseField> = if th || pts.len() < 40 { vec![P::BaseField::one(), two, -P::BaseField::one(), small::<P::BaseField>(5)] } else { vec![two] };
-    sw_points_ops::<P>(out, &fd, &pts, &lam, true);
+    let two = small_f::<P::BaseField>(2);
+    let lam: Vec<P::BaseField> = if th || pts.len() < 40 { vec![P::BaseField::one(), two, -P::BaseField::one(), small_f::<P::BaseField>(5)] } else { vec![two] };
+    sw_points_ops::<P>(out, cd, &pts, &lam, true);
     let off: Vec<_> = pts.iter().cloned().take(if th { 400 } else { 24 }).collect();
-    sw_offcurve_ops::<P>(out, &fd, &off);
+    sw_offcurve_ops::<P>(out, cd, &off);
 }
-fn toy_te<P: te::TECurveConfig>(out: &mut Out, name: &str, order: u64, th: bool) where P::BaseField: PrimeField {
+fn toy_te<P: te::TECurveConfig>(out: &mut Out, name: &str, order: u64, th: bool) {
     check_te::<P>(name, order);
     let fd = fdesc::<P::BaseField>("_");
     let pts = te_all_points::<P>();
-    let two = small::<P::BaseField>(2);
-    let lam: Vec<P::BaseField> = if th || pts.len() < 40 { vec![P::BaseField::one(), two, -P::BaseField::one(), small::<P::BaseField>(5)] } else { vec![two] };
+    let two = small_f::<P::BaseField>(2);
+    let lam: Vec<P::BaseField> = if th || pts.len() < 40 { vec![P::BaseField::one(), two, -P::BaseField::one(), small_f::<P::BaseField>(5)] } else { vec![two] };
     te_points_ops::<P>(out, &fd, &pts, &lam);
     let off: Vec<_> = pts.iter().cloned().take(if th { 400 } else { 24 }).collect();
     te_offcurve_ops::<P>(out, &fd, &off);
 }
-fn ship_sw<P: sw::SWCurveConfig>(out: &mut Out, rng: &mut Rng, n: usize) where P::BaseField: PrimeField {
-    let fd = fdesc::<P::BaseField>("_");
-    let cd = sw_desc::<P>(&fd);
+fn ship_sw<P: sw::SWCurveConfig>(out: &mut Out, rng: &mut Rng, n: usize, tw: &str, h1: Option<&str>) {
+    let fd = fdesc::<P::BaseField>(tw);
+    let cd = match h1 { Some(h) => sw_desc_with::<P>(&fd, h), None => sw_desc::<P>(&fd) };
+    let cd = cd.as_str();
     let (sub, other) = sw_sample::<P>(rng, n);
-    let lam = vec![rand_prime::<P::BaseField>(rng)];
-    sw_points_ops::<P>(out, &fd, &sub[..3], &lam, true);
+    let lam = vec![rand_field::<P::BaseField>(rng)];
+    sw_points_ops::<P>(out, cd, &sub[..3], &lam, true);
     // the rest: affine in all modes, projective (rescaled) in two
     for a in sub[3..].iter().chain(other.iter()) {
-        for (c, v) in MODES { op_prt(out, &cd, a, c, v); }
+        for (c, v) in MODES { op_prt(out, cd, a, c, v); }
         let q = sw_rescale(&sw::Projective::<P>::from(*a), lam[0]);
-        op_prt(out, &cd, &q, Compress::Yes, Validate::Yes);
-        op_prt(out, &cd, &q, Compress::No, Validate::No);
+        op_prt(out, cd, &q, Compress::Yes, Validate::Yes);
+        op_prt(out, cd, &q, Compress::No, Validate::No);
     }
-    sw_offcurve_ops::<P>(out, &fd, &sub[..4]);
+    sw_offcurve_ops::<P>(out, cd, &sub[..4]);
 }
-fn ship_te<P: te::TECurveConfig>(out: &mut Out, rng: &mut Rng, n: usize) where P::BaseField: PrimeField {
+fn ship_te<P: te::TECurveConfig>(out: &mut Out, rng: &mut Rng, n: usize) {
     let fd = fdesc::<P::BaseField>("_");
     let cd = te_desc::<P>(&fd);
     let (sub, other) = te_sample::<P>(rng, n);
-    let lam = vec![rand_prime::<P::BaseField>(rng)];
+    let lam = vec![rand_field::<P::BaseField>(rng)];
     te_points_ops::<P>(out, &fd, &sub[..3], &lam);
     for a in sub[3..].iter().chain(other.iter()) {
         for (c, v) in MODES { op_prt(out, &cd, a, c, v); }
@@ -224,16 +223,19 @@ fn main() {
         prime_field::<FHT251x4>(&mut out, &mut rng, false);
     }
     if want("toy") {
-        toy_sw::<SW13B>(&mut out, "SW13B", 21, th);
-        toy_sw::<SW13C>(&mut out, "SW13C", 12, th);
-        toy_sw::<SW13D>(&mut out, "SW13D", 14, th);
-        toy_sw::<SW13E>(&mut out, "SW13E", 20, th);
-        toy_sw::<SW13F>(&mut out, "SW13F", 13, th);
-        toy_sw::<SW127C>(&mut out, "SW127C", 136, th);
-        toy_sw::<SW251A>(&mut out, "SW251A", 282, th);
-        toy_sw::<SW251B>(&mut out, "SW251B", 232, th);
-        toy_sw::<SW251C>(&mut out, "SW251C", 271, th);
-        toy_sw::<SW257A>(&mut out, "SW257A", 258, th);
+        toy_sw::<SW13B>(&mut out, "SW13B", "_", 21, th);
+        toy_sw::<SW13C>(&mut out, "SW13C", "_", 12, th);
+        toy_sw::<SW13D>(&mut out, "SW13D", "_", 14, th);
+        toy_sw::<SW13E>(&mut out, "SW13E", "_", 20, th);
+        toy_sw::<SW13F>(&mut out, "SW13F", "_", 13, th);
+        toy_sw::<SW127C>(&mut out, "SW127C", "_", 136, th);
+        toy_sw::<SW251A>(&mut out, "SW251A", "_", 282, th);
+        toy_sw::<SW251B>(&mut out, "SW251B", "_", 232, th);
+        toy_sw::<SW251C>(&mut out, "SW251C", "_", 271, th);
+        toy_sw::<SW257A>(&mut out, "SW257A", "_", 258, th);
+        toy_sw::<SW49A>(&mut out, "SW49A", "2:6", 48, th);
+        toy_sw::<SW49B>(&mut out, "SW49B", "2:6", 44, th);
+        toy_sw::<SW169A>(&mut out, "SW169A", "2:2", 193, th);
         toy_te::<TE13A>(&mut out, "TE13A", 20, th);
         toy_te::<TE127A>(&mut out, "TE127A", 124, th);
         toy_te::<TE251A>(&mut out, "TE251A", 236, th);
@@ -241,9 +243,10 @@ fn main() {
         toy_te::<TE257A>(&mut out, "TE257A", 236, th);
     }
     if want("ship") {
-        ship_sw::<bls12_381::g1::Config>(&mut out, &mut rng, if th { 40 } else { 3 });
-        ship_sw::<secp256k1::Config>(&mut out, &mut rng, if th { 40 } else { 3 });
-        ship_sw::<mnt4_753::g1::Config>(&mut out, &mut rng, if th { 10 } else { 1 });
+        ship_sw::<bls12_381::g1::Config>(&mut out, &mut rng, if th { 40 } else { 3 }, "_", None);
+        ship_sw::<secp256k1::Config>(&mut out, &mut rng, if th { 40 } else { 3 }, "_", None);
+        ship_sw::<mnt4_753::g1::Config>(&mut out, &mut rng, if th { 10 } else { 1 }, "_", None);
+        ship_sw::<bls12_381::g2::Config>(&mut out, &mut rng, if th { 30 } else { 3 }, &g2_tower(), Some(&g2_h1()));
         ship_te::<ed_on_bls12_381::EdwardsConfig>(&mut out, &mut rng, if th { 40 } else { 3 });
     }
     out.flush();
